@@ -1106,31 +1106,9 @@ Qed.
 
 
 (* ---------- the array reply reads back as exactly its responses ---------- *)
-Lemma array_elems_fuel_eq f s : array_elems_fuel f s = split_elems f s.
-Proof. reflexivity. Qed.
-
-Lemma join_length_ge (rs : list bytes) :
-  (forall r, In r rs -> (1 <= length r)%nat) -> (length rs <= length (join [x2c] rs))%nat.
-Proof.
-  induction rs as [|r rs IH]; intro H; [cbn; lia|]. destruct rs as [|r2 rs].
-  - cbn [join length]. apply H. left. reflexivity.
-  - rewrite join_cons2, !app_length. cbn [length].
-    pose proof (H r (or_introl eq_refl)). assert (length (r2 :: rs) <= length (join [x2c] (r2 :: rs)))%nat.
-    { apply IH. intros r' Hr'. apply H. right. exact Hr'. }
-    cbn [length] in *. lia.
-Qed.
-
+(* Wire.v's array reader on an assembled array: Proofs/WireFacts.v array_elems_ser (array_of = ser_array) *)
 Lemma array_of_elems rs : rs <> [] -> Forall span_ok rs -> array_elems (array_of rs) = Some rs.
-Proof.
-  intros Hne HF. unfold array_elems. rewrite array_elems_fuel_eq. unfold array_of.
-  assert (HR : Forall raw_ok rs) by (eapply Forall_impl; [|exact HF]; intros r [R _]; exact R).
-  rewrite (proj2 (skip_array_join rs Hne HR)).
-  - f_equal. induction HF as [|r rs [_ W] _ IH]; [reflexivity|]. cbn [map]. rewrite W. f_equal.
-    destruct rs as [|r2 rs]; [reflexivity|]. apply IH; [discriminate|]. inversion HR. assumption.
-  - cbn [length]. rewrite app_length. cbn [length].
-    assert (length rs <= length (join [x2c] rs))%nat; [|lia].
-    apply join_length_ge. intros r Hr. rewrite Forall_forall in HR. apply raw_ok_nonempty, HR, Hr.
-Qed.
+Proof. exact (array_elems_ser rs). Qed.
 
 Lemma mk_response_span_ok i p : wf_id i -> payload_ok p -> span_ok (mk_response i p).
 Proof.
